@@ -200,6 +200,68 @@ impl AtomicUsize {
     pub fn fetch_and(&self, val: usize, ord: Ordering) -> usize {
         self.rmw(OpKind::FetchAnd, val, |a| a.fetch_and(val, ord))
     }
+
+    /// Reported as a store of `val` (the previous value is returned to the caller only)
+    #[inline]
+    pub fn swap(&self, val: usize, ord: Ordering) -> usize {
+        match rt() {
+            None => self.v.swap(val, ord),
+            Some(r) => {
+                r.before(OpKind::Store, self.verif_addr(), val);
+                let prev = self.v.swap(val, ord);
+                r.after(OpKind::Store, self.verif_addr(), val, true);
+                prev
+            }
+        }
+    }
+
+    // the remaining read-modify-write operations are reported as generic RMW steps
+    #[inline]
+    pub fn fetch_xor(&self, val: usize, ord: Ordering) -> usize {
+        self.rmw(OpKind::FetchAdd, val, |a| a.fetch_xor(val, ord))
+    }
+
+    #[inline]
+    pub fn fetch_nand(&self, val: usize, ord: Ordering) -> usize {
+        self.rmw(OpKind::FetchAdd, val, |a| a.fetch_nand(val, ord))
+    }
+
+    #[inline]
+    pub fn fetch_max(&self, val: usize, ord: Ordering) -> usize {
+        self.rmw(OpKind::FetchAdd, val, |a| a.fetch_max(val, ord))
+    }
+
+    #[inline]
+    pub fn fetch_min(&self, val: usize, ord: Ordering) -> usize {
+        self.rmw(OpKind::FetchAdd, val, |a| a.fetch_min(val, ord))
+    }
+
+    /// A load followed by compare-exchange attempts, each one a step of its own
+    pub fn fetch_update<F: FnMut(usize) -> Option<usize>>(
+        &self,
+        set_order: Ordering,
+        fetch_order: Ordering,
+        mut f: F,
+    ) -> Result<usize, usize> {
+        let mut prev = self.load(fetch_order);
+        while let Some(next) = f(prev) {
+            match self.compare_exchange_weak(prev, next, set_order, fetch_order) {
+                Ok(x) => return Ok(x),
+                Err(cur) => prev = cur,
+            }
+        }
+        Err(prev)
+    }
+
+    #[inline]
+    pub fn get_mut(&mut self) -> &mut usize {
+        self.v.get_mut()
+    }
+
+    #[inline]
+    pub fn into_inner(self) -> usize {
+        self.v.into_inner()
+    }
 }
 
 #[repr(transparent)]
@@ -252,6 +314,57 @@ impl<T> AtomicPtr<T> {
                 res
             }
         }
+    }
+
+    /// Under a runtime the weak form never fails spuriously
+    #[inline]
+    pub fn compare_exchange_weak(
+        &self,
+        cur: *mut T,
+        new: *mut T,
+        s: Ordering,
+        f: Ordering,
+    ) -> Result<*mut T, *mut T> {
+        match rt() {
+            None => self.v.compare_exchange_weak(cur, new, s, f),
+            Some(_) => self.compare_exchange(cur, new, s, f),
+        }
+    }
+
+    #[inline]
+    pub fn store(&self, p: *mut T, ord: Ordering) {
+        match rt() {
+            None => self.v.store(p, ord),
+            Some(r) => {
+                r.before(OpKind::Store, self.verif_addr(), p as usize);
+                self.v.store(p, ord);
+                r.after(OpKind::Store, self.verif_addr(), p as usize, true);
+            }
+        }
+    }
+
+    /// Reported as a store of `p` (the previous value is returned to the caller only)
+    #[inline]
+    pub fn swap(&self, p: *mut T, ord: Ordering) -> *mut T {
+        match rt() {
+            None => self.v.swap(p, ord),
+            Some(r) => {
+                r.before(OpKind::Store, self.verif_addr(), p as usize);
+                let prev = self.v.swap(p, ord);
+                r.after(OpKind::Store, self.verif_addr(), p as usize, true);
+                prev
+            }
+        }
+    }
+
+    #[inline]
+    pub fn get_mut(&mut self) -> &mut *mut T {
+        self.v.get_mut()
+    }
+
+    #[inline]
+    pub fn into_inner(self) -> *mut T {
+        self.v.into_inner()
     }
 }
 
@@ -423,6 +536,20 @@ pub mod parking_lot {
                     r.before(OpKind::CvNotifyAll, self.verif_addr(), 0);
                     self.c.notify_all();
                     r.after(OpKind::CvNotifyAll, self.verif_addr(), 0, true);
+                }
+            }
+        }
+
+        /// Reported as a notification with argument 1: the runtime wakes a single waiter
+        pub fn notify_one(&self) {
+            match rt() {
+                None => {
+                    self.c.notify_one();
+                }
+                Some(r) => {
+                    r.before(OpKind::CvNotifyAll, self.verif_addr(), 1);
+                    self.c.notify_one();
+                    r.after(OpKind::CvNotifyAll, self.verif_addr(), 1, true);
                 }
             }
         }
